@@ -25,7 +25,7 @@ def where(obj, node=None):
     """(relpath, line, qualname) from a FuncInfo / (FuncInfo, node) / (relpath, line)."""
     if isinstance(obj, FuncInfo):
         n = node if node is not None else obj.node
-        return obj.module.relpath, getattr(n, "lineno", obj.node.lineno), obj.qualname
+        return obj.module.relpath, getattr(n, "lineno", getattr(obj.node, "lineno", 1)), obj.qualname
     if isinstance(obj, tuple):
         return obj + ("",) * (3 - len(obj))
     if hasattr(obj, "relpath"):
